@@ -10,24 +10,41 @@ def install(interp):
         s = args[0]
         if isinstance(s, str):
             return s.strip() == ''
-        return ops.all_ws(ops.to_zstr(s))
+        return ops.all_ws(ops.to_zstr(s), path)
 
     def no_break(i, path, args, kw):
         s = args[0]
         if isinstance(s, str):
             return not any(c in ops.LINE_BREAKS for c in s)
-        return ops.no_break(ops.to_zstr(s))
+        return ops.no_break(ops.to_zstr(s), path)
 
     def is_ident(i, path, args, kw):
         s = args[0]
         if isinstance(s, str):
             import re
             return re.fullmatch('[a-zA-Z_][a-zA-Z0-9_]*', s) is not None
-        return ops.is_ident(ops.to_zstr(s))
+        return ops.is_ident(ops.to_zstr(s), path)
 
     def implies(i, path, args, kw):
         a, b = (i.truthy(x, path) for x in args)
         return i.or_(i.not_(a), b)
 
+    def prefix(i, path, args, kw):
+        from .values import SeqV
+        from .sorts import TypeDesc
+        lst, k = args
+        if not lst.term.blocks:
+            return SeqV()
+        z = i.to_zseq(lst.term) if lst.term.blocks else None
+        if z is None:
+            raise Unsupported('ghost prefix() of a non-z3 sequence')
+        kk = k if z3.is_expr(k) else z3.IntVal(k)
+        td = None
+        for b in lst.term.blocks:
+            if hasattr(b, 'elem_cls') and b.elem_cls is not None:
+                td = b.elem_cls
+        return SeqV(i.seq_of_base(ops.subseq(z, z3.IntVal(0), kk), td or TypeDesc('str'), path))
+
+    interp.overrides['specs.ghost.prefix'] = prefix
     for name, f in (('all_ws', all_ws), ('no_break', no_break), ('is_ident', is_ident), ('implies', implies)):
         interp.overrides[f'specs.ghost.{name}'] = f
